@@ -77,6 +77,8 @@ def run(job):
                                                          "step": c["id"]}}
         return {"status": "ok", "nalloc": ctx._last_nalloc, "ncb": ctx._last_ncb_all, "out": ctx._last_outcome}
 
+    if job.get("mode") == "lines":
+        return _run_lines(job, ctx, prog, steps, idx, tstep)
     tw = _fork_run(twin)
     if tw.get("status") == "violation":  # the step violates an invariant even without any fault
         p = copy.deepcopy(prog)
@@ -134,4 +136,99 @@ def run(job):
                 "n_violating_points": len(summary["violations"])}
     summary["stats"] = {"crash_points_enumerated": summary["enumerated"], "alloc_fail_absorbed": summary["absorbed"]}
     summary["fired"] = {"alloc_fail": summary["raised"] + summary["absorbed"]}
+    return summary
+
+
+def _run_lines(job, ctx, prog, steps, idx, tstep):
+    """Crash-point enumeration at SOURCE-LINE granularity: an asynchronous interrupt (SimInterrupt, a KeyboardInterrupt) is
+    delivered at the first and the last occurrence of every distinct line of cola/ the target step executes (capped, evenly thinned);
+    after each one: all invariants, then the same step again without fault (must equal the twin's result), then the remaining
+    steps.  Clean-up written as `except Exception:` does not run for such an interrupt -- only try/finally does."""
+    cap = job.get("cap", 120)
+
+    def twin():
+        c = copy.deepcopy(tstep)
+        c.pop("x", None)
+        c.pop("plan", None)
+        ctx._count_lines = True
+        try:
+            ctx.exec_step(c)
+        except Violation as v:
+            return {"status": "violation", "violation": {"property": v.prop, "invariant": v.inv, "detail": v.detail, "step": c["id"]}}
+        n, first, last = getattr(ctx, "_last_line_points", ([0], {}, {}))
+        pts = sorted(set(first.values()) | set(last.values()))
+        return {"status": "ok", "nlines": n[0], "points": pts, "distinct": len(first), "nalloc": ctx._last_nalloc,
+                "ncb": ctx._last_ncb_all, "out": ctx._last_outcome}
+
+    tw = _fork_run(twin)
+    if tw.get("status") == "violation":
+        p = copy.deepcopy(prog)
+        p["mode"] = "explicit"
+        p["steps"] = steps[:idx + 1]
+        return {"status": "violation", "violation": tw["violation"], "program": p, "phase": "twin"}
+    if tw.get("status") != "ok":
+        return {"status": "harness_error", "error": "line twin failed: %r" % (tw, )}
+    pts = tw["points"]
+    if len(pts) > cap:
+        stp = len(pts) / float(cap)
+        off = job.get("offset", 0) % max(1, int(stp))
+        pts = sorted({pts[min(len(pts) - 1, int(i * stp) + off)] for i in range(cap)})
+    summary = {"status": "ok", "nlines": tw["nlines"], "distinct_lines": tw["distinct"], "enumerated": 0, "raised": 0, "env_crash": 0,
+               "violations": [], "fn": tstep.get("fn") or "make:" + tstep.get("recipe", {}).get("k", "")}
+    twin_rec = {"out": tw["out"], "nalloc": tw["nalloc"], "ncb": tw["ncb"], "pbar_updates": 0, "rng_sections": []}
+    nid = max(s["id"] for s in steps) + 1
+    for e in pts:
+        def variant(e=e):
+            c = copy.deepcopy(tstep)
+            c["x"] = {"interrupt": e}
+            c["_twin"] = twin_rec
+            again = copy.deepcopy(tstep)
+            again.pop("x", None)
+            again.pop("plan", None)
+            again["id"] = nid
+            if again.get("op") == "call":
+                again["repeat_of"] = tstep["id"]
+                again.pop("out", None)
+            has_rep = any(st.get("repeat_of") == tstep["id"] for st in steps[idx + 1:])
+            tail = ([again] if again.get("op") == "call" and not has_rep else []) + steps[idx + 1:]
+            try:
+                ctx.exec_step(c)
+                for st in tail:
+                    ctx.exec_step(st)
+            except Violation as v:
+                p = copy.deepcopy(prog)
+                p["mode"] = "explicit"
+                c.pop("_twin", None)
+                p["steps"] = steps[:idx] + [c] + tail
+                if getattr(ctx, "_interrupt_line", None):
+                    v.detail["interrupted_at"] = ctx._interrupt_line
+                return {"status": "violation", "e": e, "program": p,
+                        "violation": {"property": v.prop, "invariant": v.inv, "detail": v.detail,
+                                      "step": ctx.cur.sid if ctx.cur is not None else None}}
+            except HarnessBound as b:
+                return {"status": "bound", "error": str(b)}
+            return {"status": "ok", "fired": dict(ctx.fired)}
+
+        r = _fork_run(variant)
+        summary["enumerated"] += 1
+        if r["status"] == "env_crash":
+            summary["env_crash"] += 1
+        elif r["status"] == "violation":
+            summary["violations"].append(r)
+            if len(summary["violations"]) >= 3:
+                break
+        elif r["status"] == "ok":
+            if r.get("fired", {}).get("interrupt"):
+                summary["raised"] += 1
+        elif r["status"] == "bound":
+            continue
+        else:
+            return {"status": "harness_error", "error": "line variant e=%d: %r" % (e, r)}
+    if summary["violations"]:
+        first = summary["violations"][0]
+        return {"status": "violation", "violation": first["violation"], "program": first["program"],
+                "crashenum": {k: v for k, v in summary.items() if k != "violations"},
+                "n_violating_points": len(summary["violations"])}
+    summary["stats"] = {"line_crash_points_enumerated": summary["enumerated"], "line_crash_distinct_lines": summary["distinct_lines"]}
+    summary["fired"] = {"interrupt": summary["raised"]}
     return summary
